@@ -46,6 +46,18 @@ Public API
 treelog), ``history_hash(history)``, ``history_kinds(history)``, ``cut_elements(topo)``,
 ``gauss_degree(history)`` (degree that integrates J, n J and x.n J exactly for this geometry).
 
+Notes for re-users (facts about the pinned nutils tree that shaped the generator)
+* periodic axes are generated with >= 3 elements: with 1 element a trimmed/subset topology omits the periodic self-interface, with 2
+  elements ``SubsetTopology.interfaces`` raises "repeating an element is not allowed";
+* 1-D ``mesh.simplex`` meshes are not generated (``SimplexTopology.boundary`` asserts "duplicate nodes" for 0-D simplices);
+* a trim with ``maxrefine=0`` leaves ``MosaicReference`` elements that cannot be refined (``refine``/``refined_by``/``trim(maxrefine>0)``
+  then raise AttributeError 'MosaicReference' object has no attribute 'child_refs': ``status == 'error'``);
+* plain ``TransformChainsTopology`` / ``UnionTopology`` / ``HierarchicalTopology`` have no ``connectivity``: ``.boundary`` of a ``take``
+  result raises AttributeError; use ``subset`` / ``minus`` / ``slice`` / ``group`` to keep a boundary;
+* ``_Mul`` (``mul`` op, ``tensor`` meshes) has no ``transforms``; it supports refine/boundary/interfaces/take/slice only;
+* quadratic geometry maps are never combined with periodic or multipatch meshes; ``gauss_degree(history)`` is exact for J, n J, x.n J, x J;
+* ``product`` level sets never pass exactly through mesh vertices (degenerate: zero on a whole element edge while changing sign inside).
+
 Level sets are functions of the *root* geometry ``geom0`` (piecewise affine: integer grid for
 line/rect/tensor, [0,1]^2 with vertices k/n for unitsquare, perturbed Kuhn triangulation of [0,n]^d
 for simplex, patch vertices for multipatch) so that "through a vertex / along a grid line / nearly
